@@ -228,6 +228,7 @@ class Exec:
         self._ord = {}
         self._srcs = [fn.src]
         self.called = set()
+        self._try_depth = 0
 
     # ------------------------------------------------------------------ path exploration
     def run(self, args: dict):
@@ -500,7 +501,14 @@ class Exec:
     def st_Try(self, st, env):
         try:
             try:
-                self.exec_block(st.body, env)
+                catches_all = any(h.type is None or ast.unparse(h.type) in ("Exception", "BaseException", "ZeroDivisionError") for h in st.handlers)
+                if catches_all:
+                    self._try_depth += 1
+                try:
+                    self.exec_block(st.body, env)
+                finally:
+                    if catches_all:
+                        self._try_depth -= 1
             except _Raise as r:
                 handled = False
                 for h in st.handlers:
@@ -527,6 +535,20 @@ class Exec:
         for t in st.targets:
             if isinstance(t, ast.Name):
                 env.pop(t.id, None)
+            elif isinstance(t, ast.Subscript):
+                base = self.ev(t.value, env)
+                idx = self.ev_index(t.slice, env)
+                if isinstance(base, dict):
+                    k = _hashable(idx)
+                    if k not in base:
+                        raise _Raise(Raised("KeyError", (str(k),)))
+                    del base[k]
+                elif isinstance(base, list):
+                    del base[_concrete_int(idx)]
+                else:
+                    raise SymExError(f"del on {type(base).__name__} at line {st.lineno}")
+            else:
+                raise SymExError(f"del target {type(t).__name__} at line {st.lineno}")
 
     def st_With(self, st, env):
         raise SymExError(f"with-statement at line {st.lineno} outside subset")
@@ -735,6 +757,8 @@ class Exec:
         if isinstance(op, ast.Mult):
             return a * b
         if isinstance(op, ast.Div):
+            if self.opts.get("havoc_div_in_try") and self._try_depth > 0 and not (isinstance(b, sp.Expr) and b.is_number and b != 0):
+                return fresh("havoc_div")
             self.nonzero(b, node)
             if isinstance(b, sp.Expr) and b.is_number and b == 0:
                 raise _Raise(Raised("ZeroDivisionError"))
